@@ -111,6 +111,9 @@ func grammars() []*g.Prod {
 		g.Seq(g.Grp(g.Seq(id(), g.Lit("b")), '+'), g.Grp(id(), '?')),
 		g.Seq(gfam.CapMark(g.Seq(g.Ref("Ident"), g.Ref("Ident"))), g.Grp(g.Lit("c"), '!')),
 		g.Seq(g.Grp(g.Sub(-1, sub()), '?'), id()),
+		// two optional branches that fail at the same token, the first of them one production deeper
+		g.Seq(g.Grp(g.Sub(-1, gfam.AssignOwn("T", g.Seq(g.Lit("a"), g.Lit("b"), gfam.CapMark(g.Lit("c"))))), '?'), g.Grp(g.Seq(g.Lit("a"), g.Lit("b"), gfam.CapMark(g.Lit("a"))), '?')),
+		g.Seq(g.Grp(g.Seq(g.Lit("a"), g.Lit("b"), gfam.CapMark(g.Lit("a"))), '?'), g.Grp(g.Sub(-1, gfam.AssignOwn("T", g.Seq(g.Lit("a"), g.Lit("b"), gfam.CapMark(g.Lit("c"))))), '?')),
 	}
 	var out []*g.Prod
 	for _, b := range bodies {
